@@ -157,6 +157,22 @@ def run(case):
             return violated("%s raised %r" % (desc, a), tags)
         if not (isinstance(a.value, np.ndarray) and same_array(a.value, exp, dtype=True)):
             return violated("%s gives %s, expected %s" % (desc, short(a.value, 200), short(exp, 200)), tags, got=a.value, expected=exp)
+        # result independence: the matrix belongs to the caller.  A second conversion of the same object (other side / other fill value) must not change
+        # the first matrix, and overwriting the first matrix must not show in the array or in a third conversion
+        CTX.tick("c08:padded-independent")
+        side2, fv2 = ("left" if side == "right" else "right"), np.array([fv]).astype(dt)[0] + np.array([1]).astype(dt)[0]
+        b = attempt(lambda: ra.as_padded_matrix(fill_value=fv2, side=side2))
+        if not b.ok:
+            return violated("a second as_padded_matrix(fill_value=%s, side=%s) on the same object raised %r" % (fv2, side2, b), tags)
+        if not same_array(a.value, exp, dtype=True):
+            return violated("%s: the returned matrix changed when the same array was converted again (fill_value=%s, side=%s): now %s" % (desc, fv2, side2, short(a.value, 200)), tags + ["result-shared"], got=a.value, expected=exp)
+        if a.value.size and a.value.flags.writeable:
+            keep = a.value.copy()
+            from ..core import scribble
+            scribble(a.value)
+            c_ = attempt(lambda: ra.as_padded_matrix(fill_value=fv, side=side))
+            if not c_.ok or not same_array(c_.value, keep, dtype=True):
+                return violated("%s: after the caller overwrote the returned matrix, the same conversion gives %s, expected %s" % (desc, repr(c_) if not c_.ok else short(c_.value, 200), short(keep, 200)), tags + ["result-shared"])
         return held(tags, nontrivial) if unchanged() else violated("%s modified its operand" % desc, tags)
 
     if op == "nonzero":
